@@ -498,7 +498,8 @@ class BPInfo:
 
 def us_to_datetime(us: int, offset_min: int = 0) -> datetime:
     dt = EPOCH + timedelta(microseconds=us)
-    if offset_min:
+    if offset_min and TS_MIN_US <= us + offset_min * 60 * 10**6 <= TS_MAX_US:
+        # the offset is only applied when the local wall time stays within datetime.min .. datetime.max
         dt = dt.astimezone(timezone(timedelta(minutes=offset_min)))
     return dt
 
